@@ -70,7 +70,7 @@ def run_rustc(tag, items, entropy, junk, deps, rlib):
         if k in os.environ:
             env[k] = os.environ[k]
     env.update(junk)
-    cmd = ["setarch", platform.machine(), "-R", "rustc", "+nightly", "--edition", "2021", "-Zunpretty=expanded", "--crate-type", "lib",
+    cmd = ["setarch", platform.machine(), "-R", "rustc", "+nightly", "--edition", "2021", "-Zunpretty=expanded", "--error-format=json", "--crate-type", "lib",
            "--crate-name", "a3case", "-L", "dependency=" + deps, "--extern", "derive_more=" + rlib, src]
     p = subprocess.run(cmd, env=env, stdout=subprocess.PIPE, stderr=subprocess.PIPE, text=True)
     out = p.stdout
@@ -89,13 +89,51 @@ def run_rustc(tag, items, entropy, junk, deps, rlib):
             if line == "}":
                 mods[cur] = "\n".join(buf)
                 cur = None
-    panics = p.stderr.count("proc-macro derive panicked")
-    diags = len(re.findall(r"^error", p.stderr, flags=re.M)) - panics
+    # what the user sees of an expansion is its tokens *and* its diagnostics: rustc's errors are attributed
+    # to the module whose lines their primary span falls in (4 lines per module, see crate_text) and
+    # appended to that module's text, so that a diagnostic that changes with history is a divergence too
+    panics = diags = 0
+    per_mod = {}
+    for line in p.stderr.split("\n"):
+        if not line.startswith("{"):
+            continue
+        try:
+            d = json.loads(line)
+        except ValueError:
+            continue
+        if d.get("level") != "error":
+            continue
+        msg = d.get("message", "")
+        if msg.startswith("aborting due to"):
+            continue
+        if "proc-macro derive panicked" in msg:
+            panics += 1
+        else:
+            diags += 1
+        spans = [sp for sp in d.get("spans", []) if sp.get("is_primary")] or d.get("spans", [])
+        if not spans:
+            continue
+        sp = spans[0]
+        # only diagnostics that can be the derive's output: errors without an error code (what `compile_error!`
+        # produces; its tokens carry the input's spans, so rustc shows no expansion for them) and derive panics.
+        # Coded errors (E0412 ..) come from later phases and may be suppressed by other errors; children and
+        # suggestions are dropped because rustc legitimately mentions neighbouring items there.
+        is_panic = "proc-macro derive panicked" in msg
+        if d.get("code") is not None and not is_panic:
+            continue
+        ln = sp.get("line_start", 0)
+        pos = (ln - 2) // 4
+        if ln >= 2 and 0 <= pos < len(items):
+            # of a panic only the fact is observed (the statement is about token sequences)
+            per_mod.setdefault(items[pos]["id"], []).append("derive panicked" if is_panic else "error: %s" % msg)
+    for i, ds in per_mod.items():
+        if i in mods:
+            mods[i] += "\n// diagnostics: " + " | ".join(sorted(ds))
     try:
         os.remove(src)
     except OSError:
         pass
-    return mods, panics, max(diags, 0), p.returncode, p.stderr
+    return mods, panics, diags, p.returncode, p.stderr
 
 
 def pick_items(keys, rng, n_harvest):
@@ -108,6 +146,9 @@ def pick_items(keys, rng, n_harvest):
     rng.shuffle(hv)
     for h in hv[:n_harvest]:
         items.append({"derive": h["derive"], "item": h["item"], "kind": "harvested"})
+    # every fault item twice (separate modules): whatever an expansion leaves behind when it fails
+    # meets the very same failure again
+    items += [dict(it, kind="fault-repeat") for it in items if it["kind"] == "fault"]
     for i, it in enumerate(items):
         it["id"] = i
     return items
